@@ -54,6 +54,7 @@ NAMED_CONST = {'zero': 0.0, 'one': 1.0, 'two': 2.0, 'ulp': 1.1920929e-07, 'empty
 def variants(ctx):
     v = [('float', dict(simd=False, extra=('-DNDEBUG',)))]
     v.append(('double', dict(simd=False, extra=('-DNDEBUG', '-DRKV_SCALAR=double'))))
+    v.append(('float/padded', dict(simd=False, extra=('-DNDEBUG', '-DRKV_PADDED'))))
     if ctx.tier == 'thorough':
         v.append(('double/gnu++17', dict(simd=False, std='gnu++17', extra=('-DNDEBUG', '-DRKV_SCALAR=double'))))
         v.append(('float/OMP', dict(simd=False, config='OMP', extra=('-DNDEBUG',))))
@@ -268,75 +269,358 @@ def check_branch_conditioning(ctx, tu):
     ctx.floor(R, n, 8, '4 branches x (float, double)')
 
 
+OPAQUE_FNS = {'dot', 'lerp', 'normalize', 'abs', 'acos', 'sin', 'cos', 'sqrt', 'rsqrt', 'rcp', 'min', 'max', 'fabs', 'length', 'conj'}
+
+
+class SlerpPaths:
+    """Path enumeration of slerp (helpers inlined) over a small term algebra.  Atoms: ('p', i) parameters; D = dot(p1, p2) is kept
+    canonical (dot(-x, y) = -dot(x, y)); neg/abs are normalised.  Conditions that compare D, -D or |D| with a constant restrict the
+    feasible set of D (a list of intervals); other conditions fork without restricting."""
+
+    def __init__(self, tu, fn):
+        self.tu = tu
+        self.fn = fn
+        self.D = ('D',)
+        self.und = None
+        self.choice = {}
+        self.unknown_cond = False
+
+    def forks(self, e, env, feas):
+        """[(feasible set, term)] of an expression, one entry per consistent choice of the conditional operators inside it"""
+        import itertools
+        tu = self.tu
+        ites = [x for x in tu.walk(e) if isinstance(x, dict) and x.get('kind') == 'ConditionalOperator'] if e is not None else []
+        if not ites:
+            return [(feas, self.term(e, env))]
+        out = []
+        for combo in itertools.product((True, False), repeat=len(ites)):
+            fe = feas
+            self.choice = {x['id']: t for x, t in zip(ites, combo)}
+            for x, t in zip(ites, combo):
+                for fs, truth in self.cond(tu.kids(x)[0], env):
+                    if truth == t and fs is not None:
+                        fe = self.meet(fe, fs)
+            if fe:
+                out.append((fe, self.term(e, env)))
+        self.choice = {}
+        return out
+
+    # ---- terms
+    def neg(self, t):
+        if t[0] == 'neg':
+            return t[1]
+        if t[0] == 'num':
+            return ('num', -t[1])
+        return ('neg', t)
+
+    def term(self, e, env, depth=0):
+        tu = self.tu
+        e = tu.strip(e)
+        if e is None or depth > 40:
+            return ('?',)
+        k = e.get('kind')
+        if k in ('FloatingLiteral', 'IntegerLiteral'):
+            return ('num', float(e.get('value')))
+        if k == 'DeclRefExpr':
+            d = e['referencedDecl'].get('id')
+            return env.get(d, ('var', e['referencedDecl'].get('name')))
+        if k in CASTS_C06 or k in ('CXXConstructExpr', 'CXXTemporaryObjectExpr'):
+            ks = tu.kids(e)
+            if len(ks) == 1:
+                return self.term(ks[0], env, depth + 1)
+            return ('op', 'construct') + tuple(self.term(x, env, depth + 1) for x in ks)
+        if k == 'UnaryOperator' and e.get('opcode') in ('-', '+'):
+            t = self.term(tu.kids(e)[0], env, depth + 1)
+            return self.neg(t) if e['opcode'] == '-' else t
+        if k == 'BinaryOperator':
+            l, r = (self.term(x, env, depth + 1) for x in tu.kids(e))
+            return ('op', e.get('opcode'), l, r)
+        if k == 'ConditionalOperator':
+            c, a, b = tu.kids(e)
+            truth = self.choice.get(e['id'])
+            if truth is None:
+                return ('?', 'conditional')
+            return self.term(a if truth else b, env, depth + 1)
+        if k in ('CallExpr', 'CXXOperatorCallExpr', 'CXXMemberCallExpr'):
+            sd, obj, args = tu.call_parts(e)
+            name = sd.get('q', '').split('::')[-1]
+            ts = tuple(self.term(x, env, depth + 1) for x in ([obj] if obj is not None else []) + list(args))
+            if name == 'operator-' and len(ts) == 1:
+                return self.neg(ts[0])
+            if name == 'dot' and len(ts) == 2:
+                s = 1
+                xs = []
+                for t in ts:
+                    if t[0] == 'neg':
+                        s, t = -s, t[1]
+                    xs.append(t)
+                if set(xs) == {('p', 1), ('p', 2)}:
+                    return self.D if s > 0 else ('neg', self.D)
+                return ('op', 'dot') + tuple(xs)
+            if name in ('abs', 'fabs') and len(ts) == 1:
+                t = ts[0]
+                return ('abs', t[1] if t[0] == 'neg' else t)
+            return ('op', name) + ts
+        return ('?', k)
+
+    # ---- feasible sets of D: list of (lo, lo_open, hi, hi_open)
+    FULL = [(-float('inf'), True, float('inf'), True)]
+
+    @staticmethod
+    def meet(A, B):
+        out = []
+        for (al, alo, ah, aho) in A:
+            for (bl, blo, bh, bho) in B:
+                lo, loo = max((al, alo), (bl, blo), key=lambda x: (x[0], x[1]))
+                hi, hio = min((ah, aho), (bh, bho), key=lambda x: (x[0], not x[1]))
+                if lo < hi or (lo == hi and not loo and not hio):
+                    out.append((lo, loo, hi, hio))
+        return out
+
+    def constraint(self, t, op, c, truth):
+        """feasible set of D for `t op c` being `truth`; None if t is not a function of D"""
+        if not truth:
+            op = {'<': '>=', '<=': '>', '>': '<=', '>=': '<'}[op]
+        inf = float('inf')
+
+        def rel(op, c):
+            return {'<': [(-inf, True, c, True)], '<=': [(-inf, True, c, False)], '>': [(c, True, inf, True)], '>=': [(c, False, inf, True)]}[op]
+        if t == self.D:
+            return rel(op, c)
+        if t == ('neg', self.D):
+            return rel({'<': '>', '<=': '>=', '>': '<', '>=': '<='}[op], -c)
+        if t == ('abs', self.D):
+            if op in ('>', '>='):
+                return rel(op, c) + rel({'>': '<', '>=': '<='}[op], -c)
+            return self.meet(rel(op, c), rel({'<': '>', '<=': '>='}[op], -c))
+        return None
+
+    def cond(self, c, env):
+        """[(feasible-set-or-None, truth)] for both outcomes of a condition"""
+        tu = self.tu
+        c = tu.strip(c)
+        if c.get('kind') == 'UnaryOperator' and c.get('opcode') == '!':
+            return [(fs, not truth) for fs, truth in self.cond(tu.kids(c)[0], env)]
+        l = None
+        if c.get('kind') == 'BinaryOperator' and c.get('opcode') in ('<', '<=', '>', '>='):
+            l, r = (self.term(x, env) for x in tu.kids(c))
+            op = c['opcode']
+        elif c.get('kind') == 'DeclRefExpr':
+            t = env.get(c['referencedDecl'].get('id'))        # a bool local holding a comparison
+            if t is not None and t[0] == 'op' and t[1] in ('<', '<=', '>', '>=') and len(t) == 4:
+                op, l, r = t[1], t[2], t[3]
+        if l is not None:
+            if l[0] == 'num' and r[0] != 'num':
+                l, r = r, l
+                op = {'<': '>', '<=': '>=', '>': '<', '>=': '<='}[op]
+            if r[0] == 'num':
+                a, b = self.constraint(l, op, r[1], True), self.constraint(l, op, r[1], False)
+                if a is not None:
+                    return [(a, True), (b, False)]
+        self.unknown_cond = True      # both outcomes explored without a restriction: paths may be infeasible
+        return [(None, True), (None, False)]
+
+    # ---- statements
+    def run(self):
+        f = self.fn
+        env = {p['id']: ('p', i) for i, p in enumerate(f['params'])}
+        return self.block([self.tu.body(f)], env, self.FULL, 0)
+
+    def block(self, stmts, env, feas, depth):
+        """-> list of (feasible set, returned term or None (fell through), env)"""
+        tu = self.tu
+        if depth > 12:
+            self.und = 'inlining too deep'
+            return []
+        states = [(feas, None, dict(env))]
+        for st in stmts:
+            nxt = []
+            for fe, ret, en in states:
+                if ret is not None:
+                    nxt.append((fe, ret, en))
+                    continue
+                nxt.extend(self.stmt(st, en, fe, depth))
+            states = nxt
+        return states
+
+    def stmt(self, st, env, feas, depth):
+        tu = self.tu
+        if st is None:
+            return [(feas, None, env)]
+        if st.get('kind') == 'ExprWithCleanups':
+            st = tu.kids(st)[0]
+        k = st.get('kind')
+        if k == 'CompoundStmt':
+            return self.block(tu.kids(st), env, feas, depth)
+        if k == 'DeclStmt':
+            states = [(feas, dict(env))]
+            for v in tu.kids(st):
+                if v.get('kind') != 'VarDecl':
+                    continue
+                nxt = []
+                for fe, en in states:
+                    if not tu.kids(v):
+                        en[v['id']] = ('var', v.get('name'))
+                        nxt.append((fe, en))
+                        continue
+                    for fe2, t in self.forks(tu.kids(v)[-1], en, fe):
+                        en2 = dict(en)
+                        en2[v['id']] = t
+                        nxt.append((fe2, en2))
+                states = nxt
+            return [(fe, None, en) for fe, en in states]
+        if k == 'IfStmt':
+            raw = [x for x in st.get('inner', []) if isinstance(x, dict) and x.get('kind')]
+            c, th = raw[0], raw[1]
+            el = raw[2] if len(raw) > 2 else None
+            out = []
+            for fs, truth in self.cond(c, env):
+                fe = feas if fs is None else self.meet(feas, fs)
+                if not fe:
+                    continue
+                out.extend(self.stmt(th if truth else el, dict(env), fe, depth))
+            return out
+        if k == 'ReturnStmt':
+            e = tu.strip(tu.kids(st)[0]) if tu.kids(st) else None
+            return self.ret_expr(e, env, feas, depth)
+        if k in ('BinaryOperator', 'CXXOperatorCallExpr', 'CompoundAssignOperator'):
+            ks = tu.kids(st)
+            name = st.get('opcode') or tu.sd(st).get('q', '').split('::')[-1]
+            if name in ('=', 'operator='):
+                lhs = tu.ref_decl(ks[-2])
+                if lhs is not None:
+                    out = []
+                    for fe2, t in self.forks(ks[-1], env, feas):
+                        en2 = dict(env)
+                        en2[lhs] = t
+                        out.append((fe2, None, en2))
+                    return out
+            self.und = 'statement `%s`' % tu.show(st)[:60]
+            return []
+        if k in ('NullStmt',):
+            return [(feas, None, env)]
+        self.und = 'statement kind %s' % k
+        return []
+
+    def ret_expr(self, e, env, feas, depth):
+        tu = self.tu
+        while e is not None and e.get('kind') in ('CXXConstructExpr', 'CXXTemporaryObjectExpr', 'ExprWithCleanups', 'CXXFunctionalCastExpr') and len(tu.kids(e)) == 1:
+            e = tu.strip(tu.kids(e)[0])
+        if e is None:
+            return [(feas, ('?',), env)]
+        if e.get('kind') == 'ConditionalOperator':
+            c, a, b = tu.kids(e)
+            out = []
+            for fs, truth in self.cond(c, env):
+                fe = feas if fs is None else self.meet(feas, fs)
+                if fe:
+                    out.extend(self.ret_expr(tu.strip(a if truth else b), env, fe, depth))
+            return out
+        if e.get('kind') == 'CallExpr':
+            fn = tu.callee_fn(e)
+            name = tu.sd(e).get('q', '').split('::')[-1]
+            if fn is not None and not fn.get('dep') and tu.body(fn) is not None and name not in OPAQUE_FNS and not name.startswith('operator'):
+                args = tu.call_parts(e)[2]
+                states = [(feas, {})]
+                for p, a in zip(fn['params'], args):
+                    states = [(fe2, dict(en, **{p['id']: t})) for fe, en in states for fe2, t in self.forks(a, env, fe)]
+                out = []
+                for fe, env2 in states:
+                    res = self.block([tu.body(fn)], env2, fe, depth + 1)
+                    out.extend((fe3, r if r is not None else ('?',), env) for fe3, r, _ in res)
+                return out
+        return [(fe, t, env) for fe, t in self.forks(e, env, feas)]
+
+
+CASTS_C06 = {'CStyleCastExpr', 'CXXStaticCastExpr', 'CXXFunctionalCastExpr', 'ImplicitCastExpr', 'ParenExpr', 'MaterializeTemporaryExpr'}
+
+
+def _subterms(t):
+    yield t
+    if isinstance(t, tuple):
+        for x in t[1:]:
+            if isinstance(x, tuple):
+                for y in _subterms(x):
+                    yield y
+
+
+def _occ_sign(t, atom, sign=1, out=None):
+    """signs with which `atom` occurs in t (neg flips)"""
+    out = set() if out is None else out
+    if t == atom:
+        out.add(sign)
+        return out
+    if isinstance(t, tuple):
+        if t[0] == 'neg':
+            _occ_sign(t[1], atom, -sign, out)
+        elif t[0] == 'abs' and t[1] == atom:
+            out.add(0)
+        else:
+            for x in t[1:]:
+                if isinstance(x, tuple):
+                    _occ_sign(x, atom, sign, out)
+    return out
+
+
+def _fmt_feas(fe):
+    return ' or '.join('%s%g, %g%s' % ('(' if lo_o else '[', lo, hi, ')' if hi_o else ']') for lo, lo_o, hi, hi_o in fe)
+
+
 def check_slerp(ctx, tu):
-    """slerp: the hemisphere correction (d < 0: a = -a, d = -d) is applied before anything is interpolated, and only the corrected
-    local copy is interpolated (the parameter is read once, to initialise that copy)."""
+    """slerp(f, a, b): on every path (helpers inlined, conditions on d = dot(a, b) turned into the feasible set of d) the value returned is
+    built from s*a and b with one sign s, the path can only be taken when s*d >= 0 (the operands actually interpolated lie in one
+    hemisphere: the short way), and every use of the dot value in the result is s*d or |d| (the angle belongs to the operands used)."""
     R = 'R-C06-slerp'
-    ctx.describe(R, 'slerp applies the hemisphere correction before any interpolation and interpolates only the corrected copy')
+    ctx.describe(R, 'slerp: on every path the result is built from s*a and b with s*dot(a,b) >= 0 on that path, and the angle is computed from s*dot(a,b)')
     n = 0
     for f in sorted(tu.functions.values(), key=lambda x: x['fty']):
-        if f['dep'] or f['q'] != 'rkcommon::math::slerp' or tu.cfg(f) is None:
+        if f['dep'] or f['q'] != 'rkcommon::math::slerp' or tu.body(f) is None or len(f['params']) != 3:
             continue
         n += 1
-        g = tu.cfg(f)
         inst = 'slerp %s' % f['fty'].replace('rkcommon::math::', '')
         key = '%s|rkcommon/math/Quaternion.h|slerp|' % R
-        pa = f['params'][1]['id']
-        body = tu.body(f)
-        # locals initialised from a dot product
-        dots = set()
-        for v in tu.walk(body):
-            if v.get('kind') == 'VarDecl' and tu.kids(v) and any(
-                    x.get('kind') == 'CallExpr' and tu.sd(x).get('q', '').split('::')[-1] == 'dot' for x in tu.walk(tu.kids(v)[-1])):
-                dots.add(v['id'])
-        # hemisphere test: a comparison `<dot local> < 0` (either as a branch condition or stored in a bool)
-        hemi = None
-        for c in tu.walk(body):
-            if c.get('kind') == 'BinaryOperator' and c.get('opcode') in ('<', '>'):
-                l, r = tu.kids(c)
-                if c['opcode'] == '>':
-                    l, r = r, l
-                lv, rv = tu.strip(l, casts=True), tu.strip(r, casts=True)
-                if lv.get('kind') == 'DeclRefExpr' and lv['referencedDecl'].get('id') in dots \
-                        and rv.get('kind') in ('FloatingLiteral', 'IntegerLiteral') and float(rv.get('value', 1) or 1) == 0.0:
-                    hemi = c
-                    break
-        if hemi is None or g.where(hemi['id']) is None:
-            ctx.undecided(R, inst, 'no `d < 0` hemisphere test on the dot product recognised', tu.fn_loc(f))
+        sp = SlerpPaths(tu, f)
+        paths = sp.run()
+        if sp.und or not paths:
+            ctx.undecided(R, inst, 'body outside the path fragment: %s' % (sp.und or 'no path'), tu.fn_loc(f))
             continue
-        hpos = g.where(hemi['id'])
-        bad = False
-        for b, i2, x in g.stmts():
-            if x.get('kind') == 'ReturnStmt' and not g.dominates(hpos, (b.id, i2)):
-                bad = True
-                ctx.violation(R, inst, 'a result is returned at %s on a path that never evaluated the hemisphere test `%s`: for inputs with a negative '
-                              'dot product the interpolation goes the long way round / through the origin' % (tu.loc(x), tu.show(hemi)),
-                              tu.loc(x), key=key + 'return-before-hemisphere-fix')
-        uses = [x for x in tu.walk(body) if x.get('kind') == 'DeclRefExpr' and x.get('referencedDecl', {}).get('id') == pa]
-        for u in uses:
-            p = tu.par(u)
-            okuse = False
-            hops = 0
-            while p is not None and hops < 12:
-                k = p.get('kind')
-                if k == 'VarDecl':
-                    okuse = True       # initialises a local (the corrected copy, or the dot product)
-                    break
-                if k == 'CallExpr' and tu.sd(p).get('q', '').split('::')[-1] == 'dot':
-                    okuse = True
-                    break
-                if k in ('ReturnStmt', 'CompoundStmt', 'IfStmt'):
-                    break
-                p = tu.par(p)
-                hops += 1
-            if not okuse:
-                bad = True
-                ctx.violation(R, inst, 'the uncorrected parameter `%s` is used at %s outside the initialisation of the local copy: the '
-                              'hemisphere correction is bypassed' % (f['params'][1]['name'], tu.loc(u)), tu.loc(u), key=key + 'uncorrected-operand-used')
-        if not bad:
-            ctx.ok(R, inst, 'every return is dominated by the hemisphere test; the parameter only initialises the corrected copy', tu.fn_loc(f))
+        bad = und = None
+        npaths = 0
+        for fe, ret, _ in paths:
+            if ret is None:
+                und = 'a path falls off the end without a return'
+                break
+            npaths += 1
+            sa = _occ_sign(ret, ('p', 1))
+            if not sa or ('?',) in set(_subterms(ret)):
+                und = 'returned term `%s` not built from the parameters' % str(ret)[:80]
+                break
+            if len(sa) != 1 or 0 in sa:
+                und = 'the first operand occurs with different signs in one result'
+                break
+            s = sa.pop()
+            want = [(0.0, False, float('inf'), True)] if s > 0 else [(-float('inf'), True, 0.0, False)]
+            outside = SlerpPaths.meet(fe, [(-float('inf'), True, 0.0, True)] if s > 0 else [(0.0, True, float('inf'), True)])
+            if outside:
+                bad = ('hemisphere', 'a path that can be taken with dot(a,b) in %s returns a value interpolated from %sa and b: for those inputs the '
+                       'operands lie in opposite hemispheres, the interpolation goes the long way round / through the origin (q and -q are the '
+                       'same rotation, the hemisphere correction must come first)' % (_fmt_feas(outside), '' if s > 0 else '-'))
+                break
+            ds = _occ_sign(ret, ('D',))
+            if ds - {s, 0}:
+                bad = ('angle', 'the result interpolates %sa with b but computes the angle / fallback test from %sdot(a,b): operands and angle do not '
+                       'belong together' % ('' if s > 0 else '-', '-' if s > 0 else ''))
+                break
+        if bad and sp.unknown_cond:
+            ctx.undecided(R, inst, 'a condition that is not a comparison of dot(a,b) with a constant was explored both ways; a path built that way '
+                          'looks wrong (%s) but may be infeasible' % bad[1][:120], tu.fn_loc(f))
+        elif bad:
+            ctx.violation(R, inst, bad[1], tu.fn_loc(f), key=key + ('return-before-hemisphere-fix' if bad[0] == 'hemisphere' else 'uncorrected-operand-used'))
+        elif und:
+            ctx.undecided(R, inst, und, tu.fn_loc(f))
+        else:
+            ctx.ok(R, inst, '%d path(s): each interpolates s*a and b with s*dot(a,b) >= 0 on the path and the angle from s*dot(a,b)' % npaths, tu.fn_loc(f))
     ctx.floor(R, n, 2, 'slerp<float>, slerp<double>')
-
 
 # ============================================================================================
 #  orthogonal(): Newton iteration for the polar factor, decided in the singular-value domain
@@ -803,11 +1087,38 @@ def check_frame(ctx, tu):
                     pass
                 und = 'delegation `%s` not to frame(N)' % tu.show(e)
                 break
-            if e.get('kind') not in ('CXXConstructExpr', 'CXXTemporaryObjectExpr') or len(tu.kids(e)) != 3:
+            renv = env
+            hops = 0
+            while e is not None and e.get('kind') in ('CallExpr', 'CXXMemberCallExpr') and hops < 4:
+                # a helper that builds the frame: bind its parameters, evaluate its locals, continue at its single return
+                hops += 1
+                fn = tu.callee_fn(e)
+                if fn is None or fn.get('dep') or tu.body(fn) is None:
+                    break
+                hrets = [x for x in tu.walk(tu.body(fn)) if x.get('kind') == 'ReturnStmt']
+                if len(hrets) != 1 or not tu.kids(hrets[0]):
+                    break
+                env2 = {}
+                try:
+                    for pp, a in zip(fn['params'], tu.call_parts(e)[2]):
+                        env2[pp['id']] = _vterm(tu, a, renv)
+                except _NoForm:
+                    break
+                for v in tu.walk(tu.body(fn)):
+                    if v.get('kind') == 'VarDecl' and tu.kids(v):
+                        try:
+                            env2[v['id']] = _vterm(tu, tu.kids(v)[-1], env2)
+                        except _NoForm:
+                            pass
+                renv = env2
+                e = tu.strip(tu.kids(hrets[0])[0])
+                while e is not None and e.get('kind') in ('CXXConstructExpr', 'CXXTemporaryObjectExpr', 'CXXFunctionalCastExpr') and len(tu.kids(e)) == 1:
+                    e = tu.strip(tu.kids(e)[0])
+            if e is None or e.get('kind') not in ('CXXConstructExpr', 'CXXTemporaryObjectExpr') or len(tu.kids(e)) != 3:
                 und = 'returned value `%s` is not LinearSpace3(x, y, z)' % tu.show(e)[:80]
                 break
             try:
-                X, Y, Z = (_vterm(tu, a, env) for a in tu.kids(e))
+                X, Y, Z = (_vterm(tu, a, renv) for a in tu.kids(e))
             except _NoForm as ex:
                 und = 'axis not in the vector-term fragment: %s' % str(ex)[:100]
                 break
@@ -834,7 +1145,7 @@ def check_frame(ctx, tu):
                         x = tu.strip(x)
                         if x.get('kind') == 'CallExpr' and tu.sd(x).get('q', '').split('::')[-1] == 'dot' and len(tu.kids(x)) == 3:
                             try:
-                                a, b = (_vterm(tu, y, env) for y in tu.kids(x)[1:])
+                                a, b = (_vterm(tu, y, env) for y in tu.kids(x)[1:])  # the condition lives in the caller's scope
                                 return a if a == b else None
                             except _NoForm:
                                 return None
@@ -918,6 +1229,20 @@ def run(ctx):
                 ctx.broken('%s: driver function missing: %s' % (inst, e))
                 continue
             except irnorm.Undecided as e:
+                if 'non-finite' in str(e):
+                    # arithmetic on an uninitialised value (undef) is folded to a NaN constant by LLVM; an identity whose rkcommon side
+                    # contains such a constant while the definition side does not computes from an indeterminate value
+                    def nans(fname):
+                        m = re.search(r'define[^\n]*@%s\(.*?\n}\n' % re.escape(fname), ir, re.S)
+                        return len(re.findall(r'(?:float|double) 0x7FF8000000000000', m.group(0))) if m else 0
+                    nl = nans(name + ('__zero' if name in zeros else '__lhs'))
+                    nr = 0 if name in zeros else nans(name + '__rhs')
+                    if nl and not nr:
+                        ctx.violation(rule, inst, 'the rkcommon side of the identity computes with an indeterminate value: the compiler folded %d '
+                                      'operation(s) on an uninitialised object (a member that no constructor path initialises) to NaN, while the '
+                                      'definition side is an ordinary term of the inputs' % nl, DRIVER, key=key,
+                                      path=['identity driver %s in %s' % (name, DRIVER), 'LLVM IR of the rkcommon side contains %d NaN constant(s)' % nl])
+                        continue
                 ctx.undecided(rule, inst, 'outside the IR fragment: %s' % str(e)[:200])
                 continue
             elem = 8 if 'double' in vname else 4
